@@ -13,6 +13,9 @@ from vf.pool import ALL_VERSIONS
 from vf.run import Result
 
 
+OLD_ASM = ["2.3", "2.4", "2.5", "2.6", "3.0", "3.1", "3.2", "3.3", "3.4", "3.5"]
+
+
 class ProgProp:
     aspects = ()
     versions = ALL_VERSIONS
@@ -33,7 +36,7 @@ class ProgProp:
         max_size = 30000 if ctx.tier == "quick" else 150000
         versions = self.versions
 
-        asm_kinds = ["asm", "asm"] if self.use_asm else []
+        asm_kinds = ["asm", "asm", "asmold"] if self.use_asm else []
         tab_kinds = ["table", "table"] if self.use_tables else []
 
         @st.composite
@@ -51,6 +54,9 @@ class ProgProp:
                 return c
             if k == "asm":
                 return {"k": "asm", "v": v, "items": draw(ga.asm_cases(v, self.tables(ctx, v)))}
+            if k == "asmold":
+                ov = draw(st.sampled_from(OLD_ASM))
+                return {"k": "asmold", "v": ov, "items": draw(ga.asm_cases(ov, self.old_tables(ctx, ov)))}
             if k == "prog":
                 src = draw(gp.programs(v, size=draw(st.integers(2, 5))))
                 return {"k": "prog", "v": v, "src": src}
@@ -81,7 +87,7 @@ class ProgProp:
                 units = sum(e[1] for e in case["entries"])
             except Exception:
                 return {"reject": "malformed-table-case"}
-            if units < 1 or units > 5000:
+            if units < 1 or units > 5000 or any(e[1] < 1 for e in case.get("exc", [])):
                 return {"reject": "malformed-table-case"}
             code = bytes([nop, 0]) * units
             f["co_linetable"] = ["y", rw.hx(lt)]
@@ -97,6 +103,118 @@ class ProgProp:
         if key not in ctx.cache:
             ctx.cache[key] = ga.Tables(v, ctx.pool.ref(v).call("opcode_tables"))
         return ctx.cache[key]
+
+    def old_tables(self, ctx, v):
+        """a version nobody can run any more: opcode numbers and categories are xdis's own (C09 judges those); the
+        layout and operand arithmetic below are this harness's"""
+        key = ("asmtab-old", v)
+        if key not in ctx.cache:
+            opc = rw.xd().disasm.get_opcode(ga.vt(v), False)
+            ctx.cache[key] = ga.Tables(v, {
+                "opmap": dict((n, c) for n, c in opc.opmap.items() if not n.startswith("<")),
+                "HAVE_ARGUMENT": opc.HAVE_ARGUMENT, "EXTENDED_ARG": opc.opmap["EXTENDED_ARG"],
+                "hasjrel": sorted(opc.hasjrel), "hasjabs": sorted(opc.hasjabs), "hasconst": sorted(opc.hasconst),
+                "hasname": sorted(opc.hasname), "haslocal": sorted(opc.haslocal), "hasfree": sorted(opc.hasfree),
+                "hascompare": sorted(opc.hascompare)})
+        return ctx.cache[key]
+
+    def judge_asm_old(self, case, ctx):
+        """2.3-2.6 / 3.0-3.5 byte code laid out by G-ASM, decoded by a transcription of those interpreters' fetch
+        loop (1- and 3-byte instructions, 16-bit operands, EXTENDED_ARG supplies bits 16-31)"""
+        import struct
+        from vf.magicreg import final_magics
+        from vf.ref import refmarshal as rm
+        res = Result()
+        v = case.get("v")
+        if v not in OLD_ASM:
+            res.reject = "malformed-case"
+            return res
+        tab = self.old_tables(ctx, v)
+        for it in case.get("items") or [None]:
+            if not isinstance(it, dict) or it.get("op") not in tab.opmap:
+                res.reject = "malformed-asm: unknown opcode"
+                return res
+        co_code, starts, info = ga.assemble(tab, case["items"])
+        # reference decode
+        ref = []
+        i, ext, n = 0, 0, len(co_code)
+        labels = set()
+        while i < n:
+            o = i
+            op = co_code[i]
+            i += 1
+            arg = None
+            if op >= tab.have_arg:
+                arg = co_code[i] | (co_code[i + 1] << 8) | ext
+                ext = 0
+                i += 2
+                if op == tab.ext:
+                    ext = arg << 16
+            tgt = None
+            if arg is not None and op in tab.jrel:
+                tgt = i + arg
+            elif arg is not None and op in tab.jabs:
+                tgt = arg
+            if tgt is not None:
+                labels.add(tgt)
+            ref.append((o, op, arg, tgt))
+        vt = ga.vt(v)
+        py2 = vt < (3, 0)
+        consts = ["T", [["i", str(k)] for k in range(ga.NTAB)]]
+        names = ["n%d" % k for k in range(ga.NTAB)]
+        varnames = ["v%d" % k for k in range(ga.NTAB)]
+        tree = rm.template_code_tree(v, consts, code=co_code, names=names, varnames=varnames)
+        tree[1]["co_cellvars"] = rm.names_tuple(["c%d" % k for k in range(8)], py2)
+        tree[1]["co_freevars"] = rm.names_tuple(["f%d" % k for k in range(8)], py2)
+        payload, _ = rm.encode(tree, v)
+        hdr = struct.pack("<H", final_magics()[vt]) + b"\r\n" + b"\x01\x02\x03\x04" + (b"\x05\x00\x00\x00" if vt >= (3, 3) else b"")
+        x, err = pd.xdis_dump(hdr + payload, self.max_code(ctx))
+        res.classes = ["version:" + v, "source:asmold"]
+        res.sample = {"version": v, "kind": "assembled code object, harness decode as reference",
+                      "items": ["%s %s" % (it_["op"], it_.get("arg")) for it_ in case["items"][:8]]}
+        if err:
+            res.reject = "xdis-cannot-load(C01's subject)"
+            return res
+        d = x["dis"][0]
+        fails = {}
+
+        def fail(aspect, sig, msg):
+            fails.setdefault(aspect, []).append(("%s|%s" % (v, sig), msg))
+        if "instrs_err" in d:
+            fail("tiling", "iteration-raised|" + d["instrs_err"].split(":")[0], "iterating instructions raised %s" % d["instrs_err"])
+        elif "instrs" in d:
+            xi = d["instrs"]
+            if [q["o"] for q in xi] != [r[0] for r in ref]:
+                fail("tiling", "asmold-offsets", "instruction offsets %s, byte layout says %s" % ([q["o"] for q in xi][:12], [r[0] for r in ref][:12]))
+            else:
+                for q, (o, op, arg, tgt) in zip(xi, ref):
+                    name = q["n"]
+                    if q["op"] != op:
+                        fail("decode", "asmold-opcode", "at %d: byte is %d, xdis says %d" % (o, op, q["op"]))
+                        break
+                    if q["a"] != arg:
+                        fail("decode", "asmold-operand|%s" % name, "at %d %s: operand bytes (with EXTENDED_ARG) give %s, xdis %s" % (o, name, arg, q["a"]))
+                        break
+                    if tgt is not None and q["v"] != tgt:
+                        fail("jump", "asmold-target|%s" % name, "at %d %s %s: target is %d, xdis says %s" % (o, name, arg, tgt, q["v"]))
+                        break
+                    if q["j"] != (o in labels):
+                        fail("jump", "asmold-is_jump_target", "at %d %s: is_jump_target %s, jump operands %s" % (o, name, q["j"], sorted(labels)[:8]))
+                        break
+        if "labels_err" in d:
+            fail("labels", "findlabels-raised", "findlabels raised %s" % d["labels_err"])
+        elif sorted(labels) != d.get("labels"):
+            fail("labels", "asmold-findlabels", "findlabels %s, jump operands give %s" % (d.get("labels"), sorted(labels)))
+        for a in self.aspects:
+            for sig, msg in fails.get(a, []):
+                res.fail("%s|%s|%s" % (self.id, a, sig), "%s: %s" % (v, msg))
+        has_ext = any(r[1] == tab.ext for r in ref)
+        res.nontrivial = has_ext or len(co_code) > 255 or bool(labels)
+        res.key = [v, rw.hx(co_code)]
+        res.evals = max(1, len(ref))
+        if has_ext:
+            res.classes.append("EXTENDED_ARG")
+        return res
 
     # -- reference + xdis
     def reference(self, case, ctx):
@@ -158,6 +276,8 @@ class ProgProp:
         res = Result()
         if case.get("k") == "corpus" and self.corpus_aspects:
             return self.judge_corpus_internal(case, ctx)
+        if case.get("k") == "asmold" and self.use_asm:
+            return self.judge_asm_old(case, ctx)
         if case.get("k") not in ("prog", "stdlib", "asm", "lnotab", "loctab") or case.get("v") not in ALL_VERSIONS:
             res.reject = "malformed-case"
             return res
